@@ -1,5 +1,5 @@
 (* C05 — Reverse mirrors coordinates (parts in mirrored order, none lost). *)
-From GTS Require Import Base Arith Loc Seq BaseLemmas LocProofs EditProofs SeqProofs JoinDen JoinLift RotateProofs RotateJoin InsertSeq Region RegionProofs ResizeProofs RevCompProofs.
+From GTS Require Import Base Arith Loc Seq BaseLemmas LocProofs EditProofs SeqProofs JoinDen JoinLift RotateProofs RotateJoin InsertSeq Region RegionProofs ResizeProofs RevCompProofs PartialProofs.
 From Coq Require Import Permutation.
 Open Scope Z_scope.
 
@@ -105,4 +105,22 @@ Example C05_revcomp_example :
   map (rd p) (den l) = [103; 99; 97; 99; 103] /\
   map (rd (rc_bytes p)) (den (complement (Complemented (Joined [Ranged 2 5 false false; Ranged 6 8 false true]))))
     = [103; 99; 97; 99; 103].
+Proof. vm_compute. repeat split; reflexivity. Qed.
+
+(* 5'/3' partial markers swap ends: for every location without join(...) in the
+   input whose ranges are non-empty, the marker on the first end of the
+   reversed location is the one that was on the last end and vice versa
+   (flags: see C02).  PARTIAL: join(...) in the input by correspondence. *)
+Theorem C05_reverse_swaps_markers_partial : forall L l,
+  jfree l = true -> ord_ok l = true -> wf_all range_wf l = true ->
+  forall l', reverse l L = Ok l' -> flags l' = (snd (flags l), fst (flags l)).
+Proof. exact reverse_swaps_markers. Qed.
+Print Assumptions C05_reverse_swaps_markers_partial.
+
+Example C05_markers_example :
+  let l := Ordered [Ranged 0 2 true false; Point 3; Complemented (Ranged 5 7 true false)] in
+  flags l = (true, true) /\
+  reverse l 8 = Ok (Ordered [Complemented (Ranged 1 3 false true); Point 4; Ranged 6 8 false true]) /\
+  flags (Ordered [Complemented (Ranged 1 3 false true); Point 4; Ranged 6 8 false true]) = (true, true) /\
+  flags (Ranged 0 2 true false) = (true, false) /\ reverse (Ranged 0 2 true false) 8 = Ok (Ranged 6 8 false true).
 Proof. vm_compute. repeat split; reflexivity. Qed.
